@@ -20,6 +20,10 @@ Contract checked at run time on the REAL functions (`_iter_chunked`, `_body_read
                        body must be the reference body (and must be accepted when the size lines fit the buffer);
                        reference 'garbage' (malformed size line) -> anything in {accept, client error}.
   X5 small scope       every byte string up to a length over {0,1,a,CR,LF,;} as the wire, judged as in X4.
+  TE spellings         "a chunked request" is one whose Transfer-Encoding names `chunked` as the final coding; the
+                       header value is a case-insensitive comma list with optional white space (RFC 7230 3.3.1 / 7).
+                       End-to-end cases (X1/X2/X3/X6, same demands) are therefore repeated with the header spelled in
+                       every way listed in TE_SPELLINGS (case key `te`; absent = the plain 'chunked').
 """
 import itertools
 import random
@@ -33,7 +37,12 @@ BOUND = ('legal encodings: payload pieces over {a,CR,LF,0,;} (all payloads of le
          '{4,5,16,64} x read fragmentation cycles {full, 1, 2, 3, (2,1), (full,1), (full,full,2,5,1)} x level {iter, read}; '
          'a subset of them end to end through Request.body; for a core set of encodings EVERY strict prefix and EVERY '
          'single-byte substitution of every framing byte by one of 12 bytes; all byte strings of length <=5 (quick) / <=6 '
-         '(thorough) over a 6-letter alphabet as wires; seeded random larger encodings. Exhaustive over that listed space '
+         '(thorough) over a 6-letter alphabet as wires; seeded random larger encodings. End to end x Transfer-Encoding '
+         'spelling: the core encodings with size spelling x, chunk-ext {none, ;x} (legal wire, EVERY strict prefix, every '
+         'no-CRLF variant; buffer 16, full reads and 1-byte reads for the legal wire) x the header value in {chunked, '
+         'Chunked, CHUNKED, chUNked, "gzip,chunked", "gzip, chunked", "gzip , chunked", "gzip,<TAB>chunked", '
+         '"x-custom, Chunked", "gzip, deflate, chunked", "GZIP,  CHUNKED", "identity,chunked"} (chunked always the final '
+         'coding); seeded random larger encodings with a random spelling. Exhaustive over that listed space '
          'except the seeded random part.')
 NONTRIVIAL_RULE = ('distinct (kind, level, encoding parameters, cut/substitution, buffer, fragmentation); non-trivial = the wire '
                    'holds at least one non-empty chunk, or (small-scope strings) at least one CRLF')
@@ -41,6 +50,9 @@ NONTRIVIAL_RULE = ('distinct (kind, level, encoding parameters, cut/substitution
 SUBST = [b'\r', b'\n', b'0', b'1', b'2', b'a', b'F', b'G', b';', b' ', b'-', b'\x00']
 CYCLES = [[], [1], [2], [3], [2, 1], [0, 1], [0, 0, 2, 5, 1]]
 SMALL_ALPHA = [b'0', b'1', b'a', b'\r', b'\n', b';']
+# legal spellings of a Transfer-Encoding value whose final coding is chunked (token case-insensitive, OWS around commas)
+TE_SPELLINGS = ['chunked', 'Chunked', 'CHUNKED', 'chUNked', 'gzip,chunked', 'gzip, chunked', 'gzip , chunked',
+                'gzip,\tchunked', 'x-custom, Chunked', 'gzip, deflate, chunked', 'GZIP,  CHUNKED', 'identity,chunked']
 
 
 def exhaustive(tier):
@@ -177,6 +189,34 @@ def gen_cases(tier, seed):
                    sub=bytes([rnd.randrange(256)]), **enc)
 
 
+    # 5. end to end x spelling of the Transfer-Encoding header (chunked as the final coding)
+    for j, enc in enumerate(_encodings(tier, core=True)):
+        if enc['fmt'] != '{:x}' or enc['ext'] not in ('', ';x'):
+            continue
+        e = cs.encode(enc['pieces'], enc['fmt'], enc['ext'], enc['zero'], None, enc['trailer'])
+        n = len(e['wire'])
+        for te in TE_SPELLINGS[1:]:
+            for cyc in ([], [1]):
+                yield dict(kind='legal', level='app', buff=16, cycle=cyc, te=te, **enc)
+            for cut in range(0, n):
+                yield dict(kind='prefix', level='app', buff=16, cycle=[], cut=cut, te=te, **enc)
+            for k in range(len(enc['pieces'])):
+                for how in ('XY', 'drop_cr', 'drop_lf', 'drop_both', 'swap'):
+                    yield dict(kind='nocrlf', level='app', buff=16, cycle=[], k=k, how=how, te=te, **enc)
+    rnd = random.Random(seed + 5)
+    for _ in range(300 if quick else 4000):
+        pieces = [bytes(rnd.choice(b'a\r\n0;\xffZ') for _ in range(rnd.choice([1, 2, 3, 15, 16, 17, 40, 300])))
+                  for _ in range(rnd.randrange(1, 5))]
+        enc = dict(pieces=pieces, fmt=rnd.choice(['{:x}', '{:X}', '{:03x}']), ext=rnd.choice(['', ';x', ';name=val']),
+                   zero=rnd.choice(['0', '00']), trailer=rnd.choice([b'', b'T: v\r\n']))
+        cyc = [rnd.choice([0, 0, 1, 2, 3, 7, 20]) for _ in range(rnd.randrange(0, 6))]
+        buff = rnd.choice([16, 17, 64, 1000])
+        te = rnd.choice(TE_SPELLINGS)
+        yield dict(kind='legal', level='app', buff=buff, cycle=cyc, te=te, **enc)
+        e = cs.encode(pieces, enc['fmt'], enc['ext'], enc['zero'], None, enc['trailer'])
+        yield dict(kind='prefix', level='app', buff=buff, cycle=cyc, cut=rnd.randrange(0, len(e['wire'])), te=te, **enc)
+
+
 # ---------------------------------------------------------------------------------------------------------
 
 def _wire_and_demand(case):
@@ -293,7 +333,12 @@ def run_case(case):
                 raise ombott.HTTPError(outcomes[0][1], 'refused')
             seen['body'] = outcomes[0][1]
             return 'ok'
-        env = make_environ('/b', 'POST', stream=stream, chunked=True, content_length=None)
+        te = case.get('te')
+        if te is None:
+            env = make_environ('/b', 'POST', stream=stream, chunked=True, content_length=None)
+        else:
+            env = make_environ('/b', 'POST', stream=stream, content_length=None, headers={'Transfer-Encoding': te})
+            info = dict(info, te=te)
         res = serve(app, env)
         status = res.status
         oc = seen.get('outcomes') or []
